@@ -157,8 +157,14 @@ def run_ops(A, params, ops):
         elif o[0] == "unset":
             unset_fields(obj, *o[1])
         else:
+            source, before = obj, sorted(fields_set(obj))
             obj = replace(obj, **{k: 7 for k in o[1]})
+            if sorted(fields_set(source)) != before:       # replace builds a new object: the source keeps its own set
+                LEAKS.append((before, sorted(fields_set(source)), list(o[1])))
     return obj, sorted(fields_set(obj))
+
+
+LEAKS = []
 
 
 def run(tier):
@@ -187,10 +193,14 @@ def run(tier):
         for si in range(nseq):
             ops = gen_ops(rng, c, params, rng.randint(0, 5))
             try:
+                LEAKS.clear()
                 obj, fs = run_ops(A, params, ops)
             except Exception as e:
                 R.violation(f"operation sequence raised {type(e).__name__}: {e}", dict(source=src, ops=ops))
                 continue
+            for before, after, changed in LEAKS[:1]:
+                R.violation(f"replace(obj, {changed}) changed the fields_set of the source object from {before} to {after}",
+                            dict(source=src, ops=ops))
             R.note_case((tuple(sorted(f["kind"] for f in allf)), bool(c["base"]), c["base_decorated"], c["sub"], tuple(o[0] for o in ops)),
                         sample=dict(source=src, ops=ops, fields_set=fs))
             R.count("ops:%d" % len(ops))
